@@ -226,6 +226,8 @@ def run_job(scratch, job, logdir, tier):
         cbmc_args += ["--unwindset", us]
     sp = dict(spec)
     sp["cbmc_args"] = cbmc_args
+    # ask for concrete-playback tests right away: they are only generated when a check fails and save a second solver run
+    extra = extra + ["-Z", "concrete-playback", "--concrete-playback=print"]
     cmd = kani_cmd(scratch, full, sp, extra, os.path.join(scratch, "kt_" + name))
     rc, timed_out, wall = run_limited(cmd, crate_dir(scratch, spec), logf, timeout_s, mem)
     job.wall = wall
@@ -418,13 +420,8 @@ def replay_failure(scratch, job, logdir):
     if os.path.exists(usf):
         cbmc_args += ["--unwindset", open(usf).read().strip()]
     sp["cbmc_args"] = cbmc_args
-    cmd = kani_cmd(scratch, full, sp, ["-Z", "concrete-playback", "--concrete-playback=print"],
-                   os.path.join(scratch, "kt_pb_" + job.name))
-    logf = os.path.join(logdir, job.name + ".cex.log")
-    rc, timed_out, wall = run_limited(cmd, crate_dir(scratch, spec), logf,
-                                      spec.get("timeout", 600) * 2, spec.get("mem_gb", 12))
-    shutil.rmtree(os.path.join(scratch, "kt_pb_" + job.name), ignore_errors=True)
-    text = open(logf, errors="replace").read()
+    # the first run already printed the concrete-playback tests for every failed check
+    text = open(job.log, errors="replace").read()
     tests = extract_playback_tests(text)
     if not tests:
         return []
